@@ -1,7 +1,7 @@
 (* C10 — usage reports reach the owning SMF with the measured values intact. Statements only. *)
 From Coq Require Import String List NArith ZArith Bool.
 From GoUpf Require Import Bytes FlagsGen ConstsGen HandlerGen Pfcp PfcpBase PfcpSess PfcpClose PfcpTable PfcpDelete
-  PfcpStep PfcpProps PfcpCat PfcpUsage PfcpQueue.
+  PfcpStep PfcpProps PfcpCat PfcpUsage PfcpQueue Nlattr RulesGen Flags UsageDecGen UsageDec UsageDecProofs.
 Import ListNotations.
 Local Open Scope N_scope.
 
@@ -101,6 +101,112 @@ Theorem C10_emit_unknown_no_ie : forall extra d urrs rs urrs' ies u,
 Proof. exact emit_unknown_no_ie. Qed.
 Print Assumptions C10_emit_unknown_no_ie.
 
+(* ---------------------------------------------------------------------------------------------------------------
+   (d) KERNEL SIDE (model/UsageDec.v): from the attribute tree of a gtp5g usage report (sim_attr: the layout the kernel
+   sends = what go-gtp5gnl's DecodeAllUSAReports reads) through go-gtp5gnl's decoder (dec_all, written from the library's
+   clauses, pinned by decoder_clauses_pinned) and go-upf's five conversion sites (conv_site INTERPRETS the field tables
+   T-gen extracts from buffnetlink.ServeMsg and Gtp5g.UpdateURR / RemoveURR / queryURR / queryMultiURR) to the
+   report.USAReport handed to the PFCP layer, and on to the usage-report IE.
+   sim_wf s = the report's fields are Go uint32 / uint64 values;  mbit m i v = if bit i of m then v else 0. *)
+
+(* the five sites copy the same fields one for one (URR id, the six counters, query reference, start and end time; UR-SEQN,
+   volume flags and duration stay zero) and differ only in the trigger: the multicast maps the Reporting-Triggers cause
+   through SetReportingTrigger, Update/Remove URR copy the word, the two query sites leave it to the caller *)
+Theorem C10_kernel_sites_agree : forall k,
+  conv_site "ServeMsg" k = Some (usa_of k (set_reporting_trigger 0 (k_trig k))) /\
+  conv_site "UpdateURR" k = Some (usa_of k (k_trig k)) /\
+  conv_site "RemoveURR" k = Some (usa_of k (k_trig k)) /\
+  conv_site "queryURR" k = Some (usa_of k 0) /\
+  conv_site "queryMultiURR" k = Some (usa_of k 0).
+Proof. exact conv_site_spec. Qed.
+Print Assumptions C10_kernel_sites_agree.
+
+(* one kernel report, ALL 32-bit ids / trigger words, ALL 64-bit counters and times, ALL presence masks, every site:
+   decoding and converting the tree yields exactly that report's fields - no truncation, no swapped counter, an absent
+   counter is 0, start/end keep their nanosecond value (int64 reading of the 64-bit word) *)
+Theorem C10_kernel_report_converted : forall site s, sim_wf s -> In site sites5 ->
+  obind (dec_all [sim_attr s]) (conv_list site) = Some [(s_seid s, usa_of_sim site s)] /\
+  u_urrid (usa_of_sim site s) = s_urrid s /\
+  u_trig (usa_of_sim site s) = site_trig site (s_trig s) /\
+  usa_cnt (usa_of_sim site s) =
+    [mbit (s_mask s) 0 (s_tot s); mbit (s_mask s) 1 (s_ul s); mbit (s_mask s) 2 (s_dl s);
+     mbit (s_mask s) 3 (s_tpk s); mbit (s_mask s) 4 (s_upk s); mbit (s_mask s) 5 (s_dpk s)] /\
+  u_start (usa_of_sim site s) = Some (to_int64 (s_start s)) /\
+  u_end (usa_of_sim site s) = Some (to_int64 (s_end s)) /\
+  u_vflags (usa_of_sim site s) = 0 /\ u_dur (usa_of_sim site s) = 0 /\ u_seqn (usa_of_sim site s) = 0.
+Proof. exact kernel_report_converted. Qed.
+Print Assumptions C10_kernel_report_converted.
+
+Theorem C10_kernel_time_preserved : forall v, v < 9223372036854775808 -> to_int64 v = Z.of_N v.
+Proof. exact to_int64_small. Qed.
+Print Assumptions C10_kernel_time_preserved.
+
+(* a REPORT multicast with n >= 1 reports for any mixture of sessions is accepted, and the group handed to the PFCP layer
+   for SEID x is exactly x's reports in the kernel's order, each converted as above; a SEID without reports gets none.
+   (galookup = lookup in the per-SEID map.)  So decoding neither loses, duplicates nor re-addresses a report. *)
+Theorem C10_kernel_mcast_groups : forall rs, rs <> [] -> Forall sim_wf rs ->
+  exists g, serve_mcast (sim_mcast rs) = Some (true, g) /\
+    forall x, galookup x g =
+      match filter (fun s => s_seid s =? x) rs with
+      | [] => None
+      | l => Some (map (usa_of_sim "ServeMsg") l)
+      end.
+Proof. exact mcast_groups. Qed.
+Print Assumptions C10_kernel_mcast_groups.
+
+(* replies to ADD_URR+REPLACE, DEL_URR, GET_REPORT: all reports, in order; GET_MULTI_REPORTS: grouped per SEID *)
+Theorem C10_kernel_reply_plain : forall site rs, In site ["UpdateURR"; "RemoveURR"; "queryURR"]%string -> Forall sim_wf rs ->
+  serve_reply site (sim_reply rs) = Some (match rs with [] => [] | _ => [(0, map (usa_of_sim site) rs)] end).
+Proof. exact reply_plain. Qed.
+Print Assumptions C10_kernel_reply_plain.
+
+Theorem C10_kernel_reply_multi : forall rs, Forall sim_wf rs ->
+  exists g, serve_reply "queryMultiURR" (sim_reply rs) = Some g /\
+    forall x, galookup x g =
+      match filter (fun s => s_seid s =? x) rs with
+      | [] => None
+      | l => Some (map (usa_of_sim "queryMultiURR") l)
+      end.
+Proof. exact reply_multi. Qed.
+Print Assumptions C10_kernel_reply_multi.
+
+(* composition with (a): the usage-report IE built by the PFCP layer (mk_usage_ie) from the converted report, with the
+   cause [extra] added on the way (TERMR / IMMER / PERIO / 0), carries the KERNEL's values: URR id, trigger, start/end in
+   whole seconds, the volume counters selected by the URR's method / MNOP *)
+Theorem C10_kernel_report_ie : forall inf q extra site s,
+  sim_wf s -> s_start s < 9223372036854775808 -> s_end s < 9223372036854775808 ->
+  let ie := ie_of_kernel inf q extra site s in
+  let t := N.lor (site_trig site (s_trig s)) extra in
+  let m := s_mask s in
+  ur_urr ie = s_urrid s /\
+  ur_seqn ie = q /\
+  ur_trig ie = t mod 16777216 /\
+  ur_times ie = (if no_times t then None else Some (s_start s / 1000000000, s_end s / 1000000000)) /\
+  ur_vol ie = (if ui_volum inf
+               then Some (if ui_mnop inf
+                          then (63, [mbit m 0 (s_tot s); mbit m 1 (s_ul s); mbit m 2 (s_dl s);
+                                     mbit m 3 (s_tpk s); mbit m 4 (s_upk s); mbit m 5 (s_dpk s)])
+                          else (7, [mbit m 0 (s_tot s); mbit m 1 (s_ul s); mbit m 2 (s_dl s); 0; 0; 0]))
+               else None) /\
+  ur_dur ie = (if ui_durat inf then Some 0 else None).
+Proof. exact kernel_report_ie. Qed.
+Print Assumptions C10_kernel_report_ie.
+
+Theorem C10_kernel_report_ie_full : forall inf q extra site s,
+  sim_wf s -> s_mask s = 63 -> ui_volum inf = true ->
+  ur_vol (ie_of_kernel inf q extra site s) =
+    Some (if ui_mnop inf then (63, [s_tot s; s_ul s; s_dl s; s_tpk s; s_upk s; s_dpk s])
+          else (7, [s_tot s; s_ul s; s_dl s; 0; 0; 0])).
+Proof. exact kernel_report_ie_full. Qed.
+Print Assumptions C10_kernel_report_ie_full.
+
+(* the multicast's trigger word is one Reporting-Triggers cause of the generated SetReportingTrigger table: the report
+   carries the flag the table gives (C19 proves that table maps every cause to the same-named usage-report trigger) *)
+Theorem C10_kernel_mcast_trigger :
+  map (fun c => site_trig "ServeMsg" (fst c)) set_reporting_trigger_table = map snd set_reporting_trigger_table.
+Proof. exact mcast_trigger_table. Qed.
+Print Assumptions C10_kernel_mcast_trigger.
+
 (* non-vacuity: two SMFs (node ids 50, 60), one session each; a usage report for session 2 (URR 7: VOLUM|DURAT,
    MNOP; a 97-bit volume; plus a report for the unknown URR 8) goes to node id 60 only, SEID 200, values intact *)
 Definition C10_history : list event :=
@@ -121,4 +227,19 @@ Example C10_nonvacuous :
            [mkUie 7 0 1 (Some (100, 200)) (Some (63, [123456789012345678901234567890; 2; 3; 4; 5; 6])) (Some 77)]) false]
   | Fault _ => False
   end.
+Proof. vm_compute. reflexivity. Qed.
+
+(* non-vacuity, kernel side: the BYTES of a REPORT multicast with three reports for two sessions (counters 2^64-1, 2^32,
+   2^63; a report with counters 0 and 2 only; trigger VOLTH = 2, VOLQU = 256, LIUSA = 128 -> usage-report flag 1024),
+   parsed, decoded and converted *)
+Example C10_kernel_nonvacuous :
+  obind (parse 64 (ser_list (sim_mcast
+           [mkSim 7 2 2 0 9 1700000000123456789 1700000100999999999 63 18446744073709551615 4294967296 9223372036854775808 1 2 3;
+            mkSim 8 3 256 0 0 5000000000 6000000000 5 11 12 13 14 15 16;
+            mkSim 9 2 128 0 0 0 999999999 63 0 0 0 0 0 0]))) serve_mcast =
+  Some (true,
+        [(2, [mkUsa 7 0 2 0 18446744073709551615 4294967296 9223372036854775808 1 2 3 0 0
+                    (Some 1700000000123456789%Z) (Some 1700000100999999999%Z);
+              mkUsa 9 0 1024 0 0 0 0 0 0 0 0 0 (Some 0%Z) (Some 999999999%Z)]);
+         (3, [mkUsa 8 0 256 0 11 0 13 0 0 0 0 0 (Some 5000000000%Z) (Some 6000000000%Z)])]).
 Proof. vm_compute. reflexivity. Qed.
